@@ -273,11 +273,11 @@ theorem nan_rate_rejected (c : Config) (hq : qErr c = false) (hio : ioErr c = fa
     · rcases h with h | h
       · rw [h]; simp only [hnn, ↓reduceIte]
         split
-        · exact Or.inl (div_nan_left _)
+        · rw [div_nan_left]; simp only [hnn, ↓reduceIte]; exact Or.inl trivial
         · exact Or.inr rfl
       · rw [h]; simp only [hnn, ↓reduceIte]
         split
-        · exact Or.inl (div_nan_right _)
+        · rw [div_nan_right]; simp only [hnn, ↓reduceIte]; exact Or.inl trivial
         · exact Or.inr rfl
   refine (create_error_precedence c).2.2.1 hq hio hc ?_ ?_
   · rcases hr with hr | hr <;> rw [hr] <;> decide +kernel
